@@ -69,7 +69,14 @@ def strategy(date, ctx):
         rp = draw(st.lists(st.integers(0, 999_999), min_size=na, max_size=na, unique=True))
         ah = sorted(set(a.df["hh_id"].tolist()))
         rh = draw(st.lists(st.integers(0, 9_999), min_size=len(ah), max_size=len(ah), unique=True))
-        if draw(st.booleans()):  # order-reversing map
+        if draw(st.booleans()):
+            # the smallest valid identifiers (0, 1) are ordinary p_ids: give them to drawn persons
+            i0 = draw(st.integers(0, na - 1))
+            if 0 not in rp:
+                rp[i0] = 0
+            if na > 1 and 1 not in rp:
+                rp[(i0 + 1) % na] = 1
+        elif draw(st.booleans()):  # order-reversing map
             srt = sorted(rp, reverse=True)
             ranks = np.argsort(np.argsort(a.df["p_id"].to_numpy()))
             rp = [srt[r] for r in ranks]
